@@ -255,6 +255,16 @@ def random_case(rng, kinds=KINDS, allow_async=True, max_levels=3, max_group=3, m
                 case["cond"].append([cid, ans])
         levels.append(lv)
     case["args"], case["kwargs"] = random_call(rng, kind)
+    if kind != "init" and rng.random() < 0.08:
+        # one of the arguments is passed as the very object None (id 777, see implck.NONE_ID)
+        own = 1 if RECV[kind] else 0
+        spots = [("a", i) for i in range(own, len(case["args"]))] + [("k", i) for i in range(len(case["kwargs"]))]
+        if spots:
+            where, i = rng.choice(spots)
+            if where == "a":
+                case["args"][i] = 777
+            else:
+                case["kwargs"][i] = [case["kwargs"][i][0], 777]
     b = rng.random()
     if b < 0.7:
         case["body"] = {"ret": {"v": rng.choice([7, 10])}}
